@@ -3,6 +3,7 @@ package main
 // Typed random generator of well-formed expressions, with strata.
 
 import (
+	"sort"
 	"fmt"
 	"math"
 	"math/rand"
@@ -97,6 +98,45 @@ func mkCustom() map[string]*CustomOp {
 		}
 		return len(s), nil
 	}})
+	// _cid: a registered operator whose name does not start with a letter (zero arguments, like cz)
+	ops = append(ops, &CustomOp{Name: "_cid", Fn: func(a []interface{}) (interface{}, error) {
+		if len(a) != 0 {
+			return nil, ErrCustom
+		}
+		return int64(41), nil
+	}})
+	// cmed: the median of its integer arguments, found by sorting the argument slice in place;
+	// ctup/cmem: a tuple constructor whose result is its own argument slice, and membership in such a tuple
+	ops = append(ops, &CustomOp{Name: "cmed", MutatesArgs: true, Fn: func(a []interface{}) (interface{}, error) {
+		if len(a) == 0 {
+			return nil, ErrCustom
+		}
+		for _, x := range a {
+			if _, ok := x.(int64); !ok {
+				return nil, ErrCustom
+			}
+		}
+		sort.Slice(a, func(i, j int) bool { return a[i].(int64) < a[j].(int64) })
+		return a[len(a)/2], nil
+	}})
+	ops = append(ops, &CustomOp{Name: "ctup", ReturnsArgs: true, Fn: func(a []interface{}) (interface{}, error) {
+		return append([]interface{}{}, a...), nil
+	}})
+	ops = append(ops, &CustomOp{Name: "cmem", Fn: func(a []interface{}) (interface{}, error) {
+		if len(a) != 2 {
+			return nil, ErrCustom
+		}
+		t, ok := a[1].([]interface{})
+		if !ok {
+			return nil, ErrCustom
+		}
+		for _, e := range t {
+			if e == a[0] {
+				return true, nil
+			}
+		}
+		return false, nil
+	}})
 	// crem: reads the variable named by its argument through the context it is handed, the way an operator that wraps
 	// a remote call does: DNE while the context does not hold the variable, its value afterwards
 	ops = append(ops, &CustomOp{Name: "crem",
@@ -110,10 +150,16 @@ func mkCustom() map[string]*CustomOp {
 				return nil, ErrCustom
 			}
 			c := ctx.(*eval.Ctx)
-			if !c.Cached(eval.UndefinedVarKey, name) {
+			k := eval.UndefinedVarKey
+			if rf, ok := c.VariableFetcher.(*RecFetcher); ok && rf.Keys != nil {
+				if reg, ok := rf.Keys[name]; ok {
+					k = reg // the operator knows the registered key of the variable it reads
+				}
+			}
+			if !c.Cached(k, name) {
 				return eval.DNE, nil
 			}
-			return c.Get(eval.UndefinedVarKey, name)
+			return c.Get(k, name)
 		}})
 	// cnest: x + 3, where the 3 is obtained by evaluating another compiled expression on the SAME context
 	// (a rule that evaluates a sub-rule), through TryEval and through Eval
@@ -548,6 +594,14 @@ func (g *G) Bool(d int) *Node {
 			if g.Stateless && g.R.Intn(2) == 0 {
 				pre = "s"
 			}
+			if g.R.Intn(5) == 0 {
+				n := []int{0, 1, 3, 3, 4}[g.R.Intn(5)]
+				ch := make([]*Node, n)
+				for i := range ch {
+					ch[i] = g.Int(d - 1)
+				}
+				return Op("cmem", TBool, g.Int(d-1), Op("ctup", TAny, ch...))
+			}
 			if g.R.Intn(2) == 0 {
 				return Op(pre+"b", TBool, g.Bool(d-1))
 			}
@@ -645,10 +699,20 @@ func (g *G) Int(d int) *Node {
 			if g.Stateless && g.R.Intn(2) == 0 {
 				pre = "s"
 			}
-			switch g.R.Intn(5) {
+			switch g.R.Intn(6) {
+			case 5:
+				n := []int{1, 3, 3, 4, 5}[g.R.Intn(5)]
+				ch := make([]*Node, n)
+				for i := range ch {
+					ch[i] = g.Int(d - 1)
+				}
+				return Op("cmed", TInt, ch...)
 			case 4:
 				return Op("cnest", TInt, g.Int(d-1))
 			case 0:
+				if g.R.Intn(3) == 0 {
+					return Op("_cid", TInt)
+				}
 				return Op(pre+"z", TInt)
 			case 1:
 				return Op(pre+"pick", TInt, g.Bool(d-1), g.Int(d-1), g.Int(d-1))
